@@ -396,6 +396,9 @@ func (t *runner) textLegsCID(id string, f, g *cmap.File, r *pdf.Reader, ref pdf.
 	e := t.e
 	lvl := 0
 	for f != nil && g != nil && ref != nil {
+		if _, byName := ref.(pdf.Name); byName {
+			break // a predefined CMap, referred to by name
+		}
 		data, dict, err := streamText(r, ref)
 		if err != nil {
 			e.Fail("cid-embedded-stream", "cannot read the embedded CMap stream back: "+err.Error(), desc)
@@ -467,8 +470,8 @@ func (t *runner) textLegsTU(id string, f, g *cmap.ToUnicodeFile, r *pdf.Reader, 
 // second phase: the model-written text through the real extractor
 
 // expectB records what phase two needs: kind, code space, number of levels, probes, expected observation
-func (t *runner) expectB(id, kind string, csr charcode.CodeSpaceRange, levels int, probes [][]byte, obs string) {
-	t.e.Line("legb.txt", "%s %s %d %s | %s | %s", id, kind, levels, probesWire(probes), csrWire(csr), obs)
+func (t *runner) expectB(id, kind string, csr charcode.CodeSpaceRange, levels int, predef string, probes [][]byte, obs string) {
+	t.e.Line("legb.txt", "%s %s %d %s %s | %s | %s", id, kind, levels, predef, probesWire(probes), csrWire(csr), obs)
 }
 
 func loadObs(path string) map[string]string {
@@ -527,10 +530,11 @@ func phaseTwo(dir string) {
 		head := strings.Fields(parts[0])
 		id, kind := head[0], head[1]
 		levels, _ := strconv.Atoi(head[2])
-		np, _ := strconv.Atoi(head[3])
+		predef := head[3]
+		np, _ := strconv.Atoi(head[4])
 		var probes [][]byte
 		for i := 0; i < np; i++ {
-			probes = append(probes, common.UnHex(head[4+i]))
+			probes = append(probes, common.UnHex(head[5+i]))
 		}
 		csr := parseCSRWire(strings.Fields(parts[1]))
 		fmt.Fprintf(ww, "%s %s\n", id, parts[2])
@@ -542,8 +546,11 @@ func phaseTwo(dir string) {
 			}()
 			w, mf := memfile.NewPDFWriter(pdf.V2_0, nil)
 			// root first: level index levels-1 is the root
-			var ref pdf.Reference
-			var have bool
+			var ref pdf.Object
+			have := false
+			if predef != "-" {
+				ref, have = pdf.Name(predef), true
+			}
 			for lvl := levels - 1; lvl >= 0; lvl-- {
 				wire, ok := model[fmt.Sprintf("%s.w%d", id, lvl)]
 				if !ok {
@@ -554,9 +561,7 @@ func phaseTwo(dir string) {
 				if have {
 					dict["UseCMap"] = ref
 				}
-				if kind == "C" {
-					dict["CMapName"] = pdf.Name(fmt.Sprintf("B%d", lvl))
-				}
+
 				nr := w.Alloc()
 				stm, err := w.OpenStream(nr, dict)
 				if err != nil {
@@ -588,17 +593,21 @@ func phaseTwo(dir string) {
 				for _, p := range probes {
 					lk = append(lk, fmt.Sprint(uint32(g.LookupCID(p))))
 				}
-				listed := collectCID(g, codec)
-				for k, v := range listed {
-					if g.LookupNotdefCID(codec.AppendCode(nil, k)) == v {
-						delete(listed, k)
+				aobs := "A=skipped"
+				if !strings.Contains(parts[2], "A=skipped") {
+					listed := collectCID(g, codec)
+					for k, v := range listed {
+						if g.LookupNotdefCID(codec.AppendCode(nil, k)) == v {
+							delete(listed, k)
+						}
 					}
+					aobs = "A=" + cidMapWire(listed)
 				}
 				wm := ""
-				for h := g; h != nil; h = h.Parent {
+				for h := g; h != nil && !h.IsPredefined(); h = h.Parent {
 					wm += fmt.Sprint(int(h.WMode))
 				}
-				return fmt.Sprintf("L=%s A=%s W=%s S=%s", strings.Join(lk, ","), cidMapWire(listed), wm, csrSorted(g.CodeSpaceRange))
+				return fmt.Sprintf("L=%s %s W=%s S=%s", strings.Join(lk, ","), aobs, wm, csrSorted(g.CodeSpaceRange))
 			}
 			g, err := pdf.Decode(pdf.NewCursor(r), ref, cmap.ExtractToUnicode)
 			if err != nil {
